@@ -634,6 +634,27 @@ def _d11(chk, fb):
                 else:
                     own = d1[0] if m in w1 else d2[0]
                     chk.proved("D11", own.key, con, own.loc(), "written by the %s-derivative pass only" % ("first" if m in w1 else "second"))
+        # (c) a second-derivative pass that reads what the first-derivative pass produced first makes it current for its own
+        # variable (the two memo keys are independent: the first-order state may belong to another variable, or to none)
+        if d1 and d2:
+            f2 = d2[0]
+            reads = [x for x in f2.all_nodes() if x["k"] == "MemberExpr" and x["member"].get("this") and x["member"]["name"] in w1 and x["member"]["name"] not in w2]
+            if reads:
+                n += 1
+                ens = [c for c in f2.calls() if c["callee"]["name"] in ("getFirstOrderDerivative", "computeDLikelihood_", "computeDForward_") and ("obj" not in c or strip(f2.obj(c))["k"] == "CXXThisExpr")]
+                ens_ok = [c for c in ens if c["callee"]["name"] != "getFirstOrderDerivative" or (f2.args(c) and render(f2.args(c)[0]).replace("this.", "") == "d2Variable_")]
+                cfg2 = f2.cfg
+                first = min(reads, key=lambda x: (x.get("l") or 0, x.get("c") or 0))
+                dom = [c for c in ens_ok if all(cfg2.stmt_block(c) is not None and cfg2.stmt_block(r) is not None and (cfg2.dominates(cfg2.stmt_block(c), cfg2.stmt_block(r))) for r in reads)]
+                con = "first-order-state-current"
+                if dom:
+                    chk.proved("D11", f2.key, con, f2.loc(dom[0]), "'%s' dominates every read of %s" % (render(dom[0])[:50], sorted({r["member"]["name"] for r in reads})))
+                elif ens:
+                    chk.unknown("D11", f2.key, con, f2.loc(ens[0]), "a first-derivative pass is called, but not recognisably for d2Variable_ in front of every read")
+                else:
+                    chk.refuted("D11", f2.key, con, f2.loc(first),
+                                "computeD2Forward_ reads %s, which only computeDForward_ writes, without first bringing them up to date for its own variable (no call of getFirstOrderDerivative(d2Variable_)): the second derivative is computed from the first-order state of whatever variable was asked last - or from empty tables" % sorted({r["member"]["name"] for r in reads}),
+                                witness={"history": "getSecondOrderDerivative(v) on a fresh object (empty tables), or getFirstOrderDerivative(u); getSecondOrderDerivative(v) with u != v"})
         for f, kind in passes:
             cfg = f.cfg
             w = _member_writes(f)
